@@ -654,17 +654,25 @@ FEATURES = {
 
 
 def strip_features(case, defective, counts=None):
-    """rewrite the defective features out of a case (both normal forms)"""
+    """rewrite the defective features out of a case (both normal forms).  A program whose text had to be rewritten is
+    not executed any more (the rewriting changes what it computes); it still goes through the I/O steps."""
     M, NF = case["M"], case["NF"]
+    done = []
     for f in sorted(defective):
         if f not in FEATURES:
             continue
         present, strip = FEATURES[f]
         if present(M):
             M, NF = strip(M), strip(NF)
+            done.append(f)
             if counts is not None:
                 counts["stripped_" + f] += 1
-    return dict(case, M=M, NF=NF)
+    out = dict(case, M=M, NF=NF)
+    if done:
+        out["stripped"] = sorted(set(case.get("stripped", [])) | set(done))
+        if out.pop("exec", None) is not None and counts is not None:
+            counts["programs_not_executed_because_of_a_known_defect"] += 1
+    return out
 
 
 # ---- probe modules
@@ -931,6 +939,20 @@ def replay_cases(exe, pairs, maxpar=None, batch=25, pad=0):
 
 # ------------------------------------------------------------------------------------------------ executable programs (MIRProg.tla)
 
+class _NoTLC:
+    states = distinct = 0
+
+
+def safe_programs(*a, **kw):
+    """progs.generate; the shared program generator being unusable (a specification under edit) costs this check the
+    executable part of the run, not the run: the evidence then shows programs_executable = 0"""
+    try:
+        return progs.generate(*a, **kw)
+    except MachineryError as e:
+        vlib.log("  WARNING: no executable programs in this run (MIRProg generation failed: %s)" % str(e).strip().splitlines()[-1][:160])
+        return [], _NoTLC()
+
+
 def prog_cases(exe, cases):
     """`done` cases of MIRProg.tla -> cases for the replay engine.  The program text comes from progs.render_prog (the
     rendering every other check executes); its abstract module is the projection of that text scanned once, so that the
@@ -1094,6 +1116,8 @@ def case_json(case, hist):
     d = {"M": case["M"], "NF": case["NF"], "hist": hist}
     if case.get("prog"):
         d["prog"] = case["prog"]
+    if case.get("stripped"):
+        d["stripped"] = case["stripped"]
     return d
 
 
@@ -1126,7 +1150,7 @@ def run(tier):
     quick = tier == "quick"
     exe = build_exe("plain")
     exe_asan = None if quick else build_exe("asan")
-    hists, hr = gen_histories("text", 4 if quick else 5)
+    hists, hr = gen_histories("text", 4 if quick else 5)          # spec/MIRText_mc.cfg; MIRText_t.cfg is the same model at depth 5
     states, trans = hr.distinct, hr.states
     cov = collections.Counter()
 
@@ -1138,10 +1162,10 @@ def run(tier):
     gens = {
         "mc": lambda: gen_modules("MIRModule_mc.cfg", workers=2),
         "sim": lambda: gen_modules("MIRModule_sim.cfg", n=600 if quick else 30000, workers=nwk, seed=vlib.seed()),
-        "prog": lambda: progs.generate(32 if quick else 320, seed=vlib.seed() + 1000, workers=nwk, cfg="MIRProg_exec.cfg"),
+        "prog": lambda: safe_programs(32 if quick else 320, seed=vlib.seed() + 1000, workers=nwk, cfg="MIRProg_exec.cfg"),
     }
     if not quick:
-        gens["mci"] = lambda: gen_modules("MIRModule_mci.cfg", workers=vlib.NCPU, timeout=2400)
+        gens["mci"] = lambda: gen_modules("MIRModule_t.cfg", workers=vlib.NCPU, timeout=2400)
     with ThreadPoolExecutor(max_workers=len(gens) if quick else 2) as ex:
         futs = {k: ex.submit(f) for k, f in gens.items()}
         got = {k: f.result() for k, f in futs.items()}
@@ -1250,7 +1274,7 @@ def replay_file(prop, path, exes):
             print("replay: the program text is not accepted any more")
             print("VIOLATION property=%s replay=%s" % (prop, path))
             return 1
-        case = pcs[0]
+        case = strip_features(pcs[0], set(d.get("stripped", [])))
     bad = []
     for e in exes:
         (fails, _), = replay_cases(e, [(case, d["hist"])], maxpar=1)
